@@ -64,6 +64,7 @@ func configsFor(part string, thorough bool) []*xcfg {
 		return []*xcfg{
 			{Name: "cold-bfs", Voters: v3, Fifo: true, MaxTerm: 3, MaxIndex: 4, Timeouts: 2, Proposals: pick(1, 2)},
 			{Name: "warm-bfs-crash", Voters: v3, Fifo: true, WarmLeader: true, MaxTerm: 4, MaxIndex: 5, Timeouts: 1, Proposals: 1, Crashes: 1, Drops: pick(1, 2)},
+			{Name: "warm-bfs-lazy-deposed", Voters: v3, Fifo: true, WarmLeader: true, LazyApply: true, MaxTerm: 4, MaxIndex: 7, Timeouts: 1, Proposals: 2, MaxDepth: pick(11, 14)},
 			{Name: "warm-bfs-net", Voters: v3, Fifo: true, WarmLeader: true, MaxTerm: 3, MaxIndex: 5, Proposals: pick(1, 2), Drops: 1, Dups: 1, Reorders: 1},
 			{Name: "dev-basic", Voters: v3, Fifo: true, MaxDev: pick(2, 3), MaxTerm: 6, MaxIndex: 9, Timeouts: 2, Proposals: 2, Crashes: 1, Drops: 2, Dups: 1, Reorders: 1,
 				Script: []string{"T1", "H1", "P1", "P2", "H1"}},
